@@ -1,7 +1,7 @@
 """C03 — small-block allocator hands out disjoint, intact, fully accounted memory."""
 import os, re, subprocess, json
 from lib.core import Case, GenError, write_if_changed, LEAN
-from lib import cbuild, core
+from lib import cbuild, core, detsched
 
 ID = "C03"
 LEAN_MODULES = ["AwsVerif.Props.C03"]
@@ -10,13 +10,22 @@ DRIVER_EXE = "awssba"   # own executable: the model imports the generated math l
 P_DIFF_CONCRETE = False   # what is served by a bin vs the parent is conformance; the oracle (identity-based accounting, monitors) decides violations
 HARNESS = dict(name="sba", flavour="asan", ldflags=["-Wl,--wrap=posix_memalign", "-Wl,--wrap=free"])
 TIMEOUT = 300
+SCHED_HARNESS = dict(name="sba", flavour="asan", extra_cflags=["-DSBA_SCHED"], extra_srcs=[detsched.SRC],
+                     ldflags=["-Wl,--wrap=posix_memalign", "-Wl,--wrap=free"] + detsched.LDFLAGS)
 TRUSTED = ["hand model lean/AwsVerif/Model/Sba.lean (tied by this correspondence run only)",
            "generated constants lean/AwsVerif/Gen/SbaConsts.lean (compiled sizeof/offsetof probe of allocator_sba.c, cross-checked against the source text)",
            "generated aws_round_up_to_power_of_two / aws_clz_i32 / aws_sub_size_saturating (gen/math_gen.py, shared with C16)",
-           "harness/sba.c: link-time wrapping of posix_memalign/free (page numbering), per-block fill patterns, real-address overlap monitor"]
+           "harness/sba.c: link-time wrapping of posix_memalign/free (page numbering), recording parent allocator, per-block fill patterns, "
+           "real-address overlap / ownership monitors; harness/detsched.c (serialising scheduler) for the scheduled stage"]
 ASSUMPTIONS = ["posix_memalign returns a page not currently held; the parent allocator returns fresh, disjoint, 16-byte aligned blocks",
-               "the word at the page base of a parent block never equals AWS_SBA_TAG_VALUE (the unlocked tag read of s_sba_free is outside the model)",
-               "bin operations are atomic (they run under the bin mutex of a multi-threaded allocator); weak-memory effects not modelled",
+               "MODEL ASSUMPTION: the words at the page base of a parent block never equal AWS_SBA_TAG_VALUE (s_sba_free's unlocked tag test is "
+               "not in the Lean model). It is no longer unchecked: the -O2 history stage (malloc as the parent, which recycles the memory of "
+               "returned pages) exercises exactly this test and found the stale-tag defect repaired by /repo bdb9b25; user data that happens "
+               "to carry the tag value is still outside everything",
+               "MODEL ASSUMPTION: each bin operation, INCLUDING the working-page test of the free path, is one atomic action. True of the source "
+               "while all bin state is read between sba->lock and sba->unlock: checked on the source text at regeneration "
+               "(check_critical_sections) and tied by the detsched stage (every single preemption at the library's lock/unlock points); "
+               "weak-memory effects not modelled",
                "API contract: sizes >= 1, release/realloc only of live blocks with their true size"]
 RULE = ("op sequences new/acq/calloc/realloc/rel/destroy over one allocator; sizes from {1,8,16,31,32,33,...,511,512,513,4000} plus random; "
         "release orders LIFO/FIFO/random/page-draining/striped; for EVERY size class whole pages filled and released last-carved-first / first / "
@@ -156,6 +165,41 @@ def _c_expr_to_lean(expr, env):
     return v
 
 
+def check_critical_sections():
+    """The model treats s_sba_alloc_from_bin / s_sba_free_to_bin (including the working-page test of the free path) as
+    ATOMIC actions.  That is what the source does only while every read of bin state happens between sba->lock and
+    sba->unlock; this is checked on the source text, so that a change which reads bin state outside the lock no longer
+    regenerates (the scheduled run then looks for a failing schedule)."""
+    src = open(os.path.join(cbuild.REPO, "source", "allocator_sba.c")).read()
+    src = re.sub(r"/\*.*?\*/", " ", src, flags=re.S)
+
+    def body(sig):
+        m = re.search(sig + r"\s*\{(.*?)\n\}\n", src, re.S)
+        if not m:
+            raise GenError("critical sections: function not recognised: " + sig)
+        return m.group(1)
+    free_b = body(r"static\s+void\s+s_sba_free\s*\(\s*struct\s+small_block_allocator\s*\*sba,\s*void\s*\*addr\)")
+    alloc_b = body(r"static\s+void\s*\*s_sba_alloc\s*\(\s*struct\s+small_block_allocator\s*\*sba,\s*size_t\s+size\)")
+    ftb_b = body(r"static\s+void\s+s_sba_free_to_bin\s*\(\s*struct\s+sba_bin\s*\*bin,\s*void\s*\*addr\)")
+    body(r"static\s+void\s*\*s_sba_alloc_from_bin\s*\(\s*struct\s+sba_bin\s*\*bin\)")
+    cs_free = re.search(r"sba->lock\(&bin->mutex\);\s*s_sba_free_to_bin\(bin,\s*addr\);\s*sba->unlock\(&bin->mutex\);", free_b)
+    cs_alloc = re.search(r"sba->lock\(&bin->mutex\);\s*void\s*\*mem\s*=\s*s_sba_alloc_from_bin\(bin\);\s*sba->unlock\(&bin->mutex\);", alloc_b)
+    if not cs_free or not cs_alloc:
+        raise GenError("critical sections of s_sba_alloc / s_sba_free are not `lock; <bin operation>; unlock` any more: "
+                       "the model's atomic bin actions are not what the source does")
+    for name, b, cs in (("s_sba_free", free_b, cs_free), ("s_sba_alloc", alloc_b, cs_alloc)):
+        rest = b[:cs.start()] + b[cs.end():]
+        for fld in ("page_cursor", "free_chunks", "active_pages", "alloc_count"):
+            if fld in rest:
+                raise GenError(f"{name} reads bin state ({fld}) outside the bin lock: the model's atomic bin actions "
+                               "(working-page test inside the locked part) are not what the source does")
+    if not re.search(r"if\s*\(\s*page->alloc_count\s*==\s*0\s*&&\s*page\s*!=\s*s_page_base\(bin->page_cursor\)\s*\)", ftb_b):
+        raise GenError("s_sba_free_to_bin: the drained-page test `alloc_count == 0 && page != s_page_base(bin->page_cursor)` is not of the modelled shape")
+    n_calls = len(re.findall(r"\bs_sba_free_to_bin\s*\(", src)) + len(re.findall(r"\bs_sba_alloc_from_bin\s*\(", src))
+    if n_calls != 5:     # 2 definitions, 2 locked call sites, 1 recursive call inside s_sba_alloc_from_bin
+        raise GenError("bin operations are called from a place other than the two locked call sites")
+
+
 def purge_bounds():
     """(lean text, C text) of page_start, page_end and the range test of the purge loop, from the source"""
     src = open(os.path.join(cbuild.REPO, "source", "allocator_sba.c")).read()
@@ -182,6 +226,7 @@ def regen(ctx):
     c = probe_consts()
     _consts.update(c)
     pb = purge_bounds()
+    check_critical_sections()
     lean = f"""/-! GENERATED by props/c03.py from /repo's source/allocator_sba.c (compiled sizeof/offsetof probe + source text) — do not edit. -/
 namespace AwsVerif.Gen.SbaConsts
 
@@ -766,6 +811,7 @@ def extra_stages(ctx):
     ctx.cov["threaded_stress_runs_TEST"] = results
     ctx.notes.append("threaded stage is an OS-scheduled stress test (supporting run), not a proof over schedules")
     plain_stage(ctx)
+    sched_stage(ctx)
     if not quick:
         debug_stage(ctx)
 
@@ -779,6 +825,7 @@ def plain_stage(ctx):
     except cbuild.BuildError as e:
         ctx.machinery_broken("build (plain flavour): " + str(e)[:2000])
         return
+    history_runs(ctx, exe)
     cases = core.load_corpus(ID) + fullpage_cases(ctx.rng, "quick")
     c_out, _, crashes = core.run_both(ctx, cases, exe, None, timeout=TIMEOUT)
     ctx.cov["plain_build_cases"] = len(cases)
@@ -811,7 +858,126 @@ def debug_stage(ctx):
             break
 
 
+def history_runs(ctx, exe):
+    """long random histories (sizes 1..700, bins and parent mixed, grow / shrink phases that drain pages) on the -O2
+    build with plain malloc as the parent — malloc recycles the memory of pages the allocator returned, so a parent
+    block can land on it: this is the run that covers the tag test of s_sba_free on parent blocks (the defect repaired
+    by /repo bdb9b25 — tags left in freed pages — shows up here).  One process per history; the harness's monitors
+    decide (overlap, chunk-boundary-of-its-class or parent block, patterns, bytes_active, quiescence, parent balance)."""
+    quick = ctx.tier == "quick"
+    n = 400 if quick else 6000
+    base = ctx.seed * 100003
+    jobs = []
+    for k in range(n):
+        phase = (3000, 3250, 3500, 3750, 4000)[k % 5]
+        jobs.append(["new mt=0 malloc", f"history {4 * phase} {base + k} 4000 {phase}", "destroy"])
+
+    def one(ops):
+        rc, out, _ = core.run_stream([exe], "case 0\n" + "\n".join(ops) + "\n", 300)
+        ls = out.splitlines()
+        h = [l for l in ls if l.startswith("P history")]
+        mon = [l for l in ls if l.startswith("P MONITOR")]
+        ok = rc == 0 and h and h[0].endswith("ok=1") and "P destroyed pages_left=0 parent_left=0" in ls and not mon
+        return ops, ok, rc, (mon[0] if mon else (h[0] if h else out[-300:]))
+    from concurrent.futures import ThreadPoolExecutor
+    fails = 0
+    with ThreadPoolExecutor(8) as ex:
+        for ops, ok, rc, msg in ex.map(one, jobs):
+            if not ok:
+                fails += 1
+                if fails <= 3:
+                    ctx.violation(f"history-{ctx.seed}-{ops[1].split()[2]}", {"history_ops": ops, "flavour": "plain", "observed": msg, "rc": rc},
+                                  "random history on the -O2 build with malloc as the parent: " + msg[:300])
+    ctx.cov["plain_histories"] = {"runs": n, "steps_each": "12000-16000", "failed": fails}
+
+
+# ------------------------------------------------------------------ scheduled run (detsched)
+def sched_scenarios(cls):
+    """short scripted thread programs around the page transitions of one size class: (size, pre, [(give, prog), ...])"""
+    pp = per_page(cls)
+    return [
+        ("release-vs-exhaust", pp - 2, [(1, "ra"), (pp - 3, "a a a ra")]),
+        ("release-vs-exhaust-2", pp - 1, [(1, "ra"), (pp - 2, "a a ra")]),
+        ("three-threads", pp - 1, [(1, "ra"), (pp - 2, "ra"), (0, "a a a ra")]),
+        ("drain-active-page", pp, [(1, "rl"), (pp - 1, "ra"), (0, "a ra")]),
+        ("first-page-race", 0, [(0, "a a ra"), (0, "a a rz")]),
+        ("mixed", pp - 1, [((pp - 1) // 2, "rz a"), (pp - 1 - (pp - 1) // 2, "ra a a ra")]),
+        ("two-pages", pp + 1, [(1, "ra"), (pp - 1, "rz"), (1, "ra a a")]),
+    ]
+
+
+def sched_ops(cls, sc):
+    name, pre, threads = sc
+    return [f"scenario {cls} {pre} {len(threads)}"] + [f"thread {g} {prog}" for g, prog in threads]
+
+
+def sched_stage(ctx):
+    """The multi-threaded allocator under harness/detsched.c: every pthread mutex call of the library is a schedule
+    point, execution is serialised, the schedule is chosen by the harness.  Per size class 2-3 threads run short scripted
+    programs (fill the page / release in orders / release everything); explored: the schedule without preemption, EVERY
+    single preemption of it (a switch at a lock call is exactly the window between an unlocked read and the locked part),
+    sampled second preemptions, and seeded random schedules.  Oracle after join: patterns intact, live blocks disjoint
+    and owned, then everything released: bytes_active = 0, at most one page per class, no page released twice, destroy
+    returns everything.  A failure is reported with the explicit schedule (replayable)."""
+    try:
+        exe = cbuild.build_harness(**SCHED_HARNESS)
+    except cbuild.BuildError as e:
+        ctx.machinery_broken("build (detsched flavour): " + str(e)[:2000])
+        return
+    quick = ctx.tier == "quick"
+    jobs = []
+    for cls in consts().get("BINS", [32, 64, 128, 256, 512]):
+        for sc in sched_scenarios(cls):
+            jobs.append((cls, sc))
+
+    def one(job):
+        cls, sc = job
+        head = sched_ops(cls, sc)
+        ops = ["case 0"] + head + [f"explore 2 {3000 if quick else 200000} {ctx.seed}"]
+        for k in range(10 if quick else 300):
+            ops.append(f"run seed {ctx.seed * 1000 + k}")
+        if not quick:
+            ops += [f"explore 2 200000 {ctx.seed * 77 + k}" for k in range(1, 6)]
+        rc, out, _ = core.run_stream([exe], "\n".join(ops) + "\n", 600)
+        ls = out.splitlines()
+        runs = sum(int(l.split("runs=")[1].split()[0]) for l in ls if l.startswith("P explore")) + sum(1 for l in ls if l.startswith("P sched seed"))
+        mon = [l for l in ls if l.startswith("P MONITOR")]
+        sch = [l for l in ls if l.startswith("W schedule ")]
+        bad = rc != 0 or mon or any(l.startswith("P sched") and " ok=0" in l for l in ls) or "bad-op" in ls
+        return cls, sc, head, runs, bad, rc, (mon[0] if mon else out[-400:]), (sch[0].split(" ", 2)[2] if sch else None)
+    from concurrent.futures import ThreadPoolExecutor
+    total, reported = 0, 0
+    with ThreadPoolExecutor(8) as ex:
+        for cls, sc, head, runs, bad, rc, msg, sched in ex.map(one, jobs):
+            total += runs
+            if bad and reported < 3:
+                reported += 1
+                rops = head + ([f"run explicit {sched}"] if sched else [f"explore 2 3000 {ctx.seed}"])
+                ctx.violation(f"sched-{ctx.seed}-{cls}-{sc[0]}", {"sched_ops": rops, "size_class": cls, "scenario": sc[0], "schedule": sched,
+                                                                 "observed": msg, "rc": rc, "flavour": "asan + detsched"},
+                              f"multi-threaded allocator under the deterministic scheduler, class {cls}, scenario {sc[0]}: " + msg[:300])
+    ctx.cov["scheduled_runs"] = {"scenarios": len(jobs), "schedules_executed": total,
+                                 "exploration": "no preemption + every single preemption + sampled second preemptions + seeded random"}
+    ctx.cov["traces_validated_against_impl"] = ctx.cov.get("traces_validated_against_impl", 0)
+
+
 def replay(ctx, obj):
+    if "history_ops" in obj or "sched_ops" in obj:
+        sched = "sched_ops" in obj
+        exe = cbuild.build_harness(**(SCHED_HARNESS if sched else dict(HARNESS, flavour="plain")))
+        ops = obj["sched_ops"] if sched else obj["history_ops"]
+        rc, out, _ = core.run_stream([exe], "case 0\n" + "\n".join(ops) + "\n", 600)
+        print(out[-3000:])
+        ls = out.splitlines()
+        bad = rc != 0 or any(l.startswith("P MONITOR") for l in ls) or any(" ok=0" in l for l in ls)
+        if bad:
+            key = "sched_ops" if sched else "history_ops"
+            mon = [l for l in ls if l.startswith("P MONITOR")]
+            ctx.violation(f"replay-{ctx.seed}", {key: ops, "observed": out[-2500:]},
+                          "replay fails again: " + (mon[0] if mon else f"rc={rc}"))
+        else:
+            print("replay: the property held on this history / schedule")
+        return
     """replay of a threaded stress finding: the schedule is the OS's, so the run is repeated"""
     if "stress_ops" not in obj:
         print(json.dumps(obj, indent=1)[:3000])
@@ -843,7 +1009,9 @@ MANIFEST = dict(
           "header size, tag) are regenerated from the source on every run. Tied to /repo by a correspondence run of the compiled "
           "model against allocator_sba.c rebuilt from the working tree (posix_memalign/free wrapped to number pages; chunk identity "
           "page/offset compared), a Python bookkeeping oracle on the implementation's printed addresses, fill patterns of all live "
-          "blocks re-verified after every op under ASan, and an OS-scheduled 2-8 thread stress run (test)."),
+          "blocks re-verified after every op under ASan, an OS-scheduled 2-8 thread stress run (test), long random histories on an "
+          "-O2 build with malloc as the parent (covers the tag test of s_sba_free on parent blocks), and the multi-threaded allocator "
+          "under the deterministic scheduler (every single preemption at lock/unlock points per size class)."),
     note=("Trusted: Lean kernel; hand-written model Model/Sba.lean (tied by correspondence only); harness; bin operations atomic "
           "under the bin mutex; the unlocked tag read in s_sba_free and the parent's page-base word are assumptions; real races only sampled."),
     technique="Lean 4 inductive invariant over all action sequences + generated constants + model/implementation differential run + threaded stress test",
